@@ -1,6 +1,7 @@
 package store
 
 import (
+	"errors"
 	"context"
 	"fmt"
 	"strings"
@@ -75,6 +76,10 @@ type Log struct {
 	nextInst int
 }
 
+// ErrRefuse, returned by Log.Fail for a create request (Child or Next with New), makes the wrapper
+// answer "nothing created, no error" - (nil, nil) - instead of an error.
+var ErrRefuse = errors.New("verif: refuse to create")
+
 // Rec wraps a node, recording every callback.
 type Rec struct {
 	Base node.Node
@@ -125,6 +130,10 @@ func join(p, s string) string {
 func (r *Rec) Child(q node.ChildRequest) (node.Node, error) {
 	idx := len(r.Log.Events)
 	_, err := r.emit(Event{Kind: "child", Ident: q.Meta.Ident(), New: q.New, Del: q.Delete})
+	if err == ErrRefuse && q.New {
+		r.Log.Events[idx].Nil = true
+		return nil, nil
+	}
 	if err != nil {
 		return nil, err
 	}
@@ -151,6 +160,10 @@ func keyStr(k []val.Value) string {
 func (r *Rec) Next(q node.ListRequest) (node.Node, []val.Value, error) {
 	idx := len(r.Log.Events)
 	_, err := r.emit(Event{Kind: "next", Ident: q.Meta.Ident(), New: q.New, Del: q.Delete, Key: keyStr(q.Key), Row: q.Row})
+	if err == ErrRefuse && q.New {
+		r.Log.Events[idx].Nil = true
+		return nil, nil, nil
+	}
 	if err != nil {
 		return nil, nil, err
 	}
